@@ -149,3 +149,43 @@ func EnumLineAfterShapes() []*Program {
 	}
 	return out
 }
+
+// EnumIteratorShapes: generic for over user-written iterators — stateless (f, s, control), closures, multiple
+// values, control values of every type (only nil ends the loop: false, 0 and "" do not), early break, nesting,
+// iterators that are callable objects, explists with fewer/more than three values.
+func EnumIteratorShapes() []*Program {
+	lists := []string{
+		"{1, false, 'x', 0, true, ''}", "{false, false, 7}", "{}", "{false}", "{0, '', false, true}", "{'a', 'b'}",
+	}
+	iters := map[string]string{
+		// stateless: walks list L, control value = the ELEMENT (so false / 0 / '' become control values)
+		"stateless-elem": "local pos = 0\nlocal function it(s, c) pos = pos + 1 if pos > #L then return nil end return s[pos], pos end\nfor v, i in it, L, nil do emit('b', v, i) end",
+		// closure iterator, control = element
+		"closure-elem": "local function each(t) local i = 0 return function() i = i + 1 if i <= #t then return t[i], i end end end\nfor v, i in each(L) do emit('b', v, i) end",
+		// control = index, value second (the usual shape)
+		"closure-index": "local function each(t) local i = 0 return function() i = i + 1 if i <= #t then return i, t[i] end end end\nfor i, v in each(L) do emit('b', i, v) end",
+		// alternating booleans as control values
+		"alternating": "local n = 0\nlocal function it() n = n + 1 if n > #L + 2 then return nil end return n % 2 == 0, n end\nfor flag, k in it do emit('b', flag, k) end",
+		// the control variable is passed back to the iterator
+		"control-passed": "local function it(s, c) local nxt = (c == nil or c == false) and 1 or c + 1 if c == false then return nil end if nxt > #s then return false end return nxt end\nfor c in it, L do emit('b', c, L[c]) end",
+		// callable object as iterator
+		"callable": "local i = 0\nlocal obj = setmetatable({}, {__call = function(self, s, c) i = i + 1 if i <= #s then return s[i] end end})\nfor v in obj, L do emit('b', v) end",
+		// early exit
+		"break": "local function each(t) local i = 0 return function() i = i + 1 if i <= #t then return t[i], i end end end\nfor v, i in each(L) do emit('b', v) if i == 2 then break end end",
+		// nested loops over two iterators
+		"nested": "local function each(t) local i = 0 return function() i = i + 1 if i <= #t then return t[i], i end end end\nfor v in each(L) do for w in each({false, 1}) do emit('b', v, w) end end",
+		// more loop variables than values, and more explist values than three
+		"arity": "local function it(s, c) c = (c or 0) + 1 if c <= #s then return c end end\nfor a, b, c in it, L, nil, 'extra' do emit('b', a, b, c, L[a]) end",
+	}
+	names := []string{"stateless-elem", "closure-elem", "closure-index", "alternating", "control-passed", "callable", "break", "nested", "arity"}
+	var out []*Program
+	for _, n := range names {
+		for li, l := range lists {
+			body := "local L = " + l + "\n" + iters[n] + "\nemit('after', #L)\nreturn 'done'"
+			out = append(out, shapeProgram(body, "shape:iterator", "iter:"+n, fmt.Sprintf("list:%d", li)))
+			fn := "local function run()\n" + "local L = " + l + "\n" + iters[n] + "\nreturn #L\nend\nemit('after', run())"
+			out = append(out, shapeProgram(fn, "shape:iterator-in-function", "iter:"+n))
+		}
+	}
+	return out
+}
